@@ -245,6 +245,46 @@ def known_finding(ctx, fid, what):
         ctx.known_hits.append((fid, what))
 
 
+COMMON_ASSUMPTIONS = [
+    "Lean 4.33 kernel; axioms of every property theorem printed on this run and required to be within "
+    "{propext, Classical.choice, Quot.sound}; no sorry/admit/axiom/native_decide in the Lean tree (grep on this run)",
+    "the theorems are about the hand-written executable models in lean/MaestroVerif/Model and the tables "
+    "regenerated from /repo on this run (harness/translate.py); the models are tied to the code by the "
+    "correspondence run of this check, which samples inputs - it validates, it does not prove, the models",
+]
+EXEC_ASSUMPTIONS = [
+    "job ids returned by submit are unique among live jobs; status answers are keyed by queried jobs (WFPoll)",
+    "Python set iteration order is abstracted (only observable in check/cancel argument lists, compared sorted); "
+    "logging and timestamps are not modelled",
+]
+STUDY_ASSUMPTIONS = [
+    "PyYAML, str(), md5 are oracles of the expansion model; regular expressions modelled for ASCII names",
+]
+PER_PROP = {
+    "C05": ["termination is proved for decisive scheduler answers (FINISHED/FAILED/UNKNOWN/CANCELLED for every "
+            "tracked job) on acyclic configurations; broader fairness is monitored on the real code, not proved"],
+    "C12": ["filelock / OS mutual exclusion and atomicity of a single write are trusted (sampled by the stress run)"],
+    "C13": ["documents are parsed trees (PyYAML collapses duplicate mapping keys before the code sees them); "
+            "jsonschema Draft 7 modelled for the keywords the schema file uses; file-system dependent failures "
+            "(missing dependency paths) are outside the model"],
+    "C15": ["Python str/int/float/format modelled for decimal ASCII spellings; fractional Flux walltimes are outside "
+            "the model; the fake flux module only supplies a handle and a version string"],
+    "C16": ["the vocabulary and alive/terminal classification of scheduler states is hand-entered from the "
+            "schedulers' documentation (Model/SchedVocab.lean)"],
+    "C18": ["dill / pickle / yaml fidelity is a library property checked by differential runs, not proved"],
+    "C19": ["/bin/bash, the OS process model and the file system are sampled by end-to-end CLI runs"],
+}
+
+
+def assumptions_for(prop):
+    out = list(COMMON_ASSUMPTIONS)
+    if prop in ("C01", "C02", "C03", "C04", "C05", "C06", "C07", "C17", "C19", "C20"):
+        out += EXEC_ASSUMPTIONS
+    if prop in ("C08", "C09", "C10", "C11", "C18"):
+        out += STUDY_ASSUMPTIONS
+    return out + PER_PROP.get(prop, [])
+
+
 def finish(ctx, level="proof", obligations=None, discharged=None,
            checker_cmd=None, rule="", explanation=None, extra=None):
     cov = dict(ctx.cov)
@@ -271,7 +311,7 @@ def finish(ctx, level="proof", obligations=None, discharged=None,
         "seed": int(ctx.seed),
         "level": level,
         "coverage": cov,
-        "assumptions": ctx.assumptions,
+        "assumptions": ctx.assumptions or assumptions_for(ctx.prop),
         "wall_s": round(time.time() - ctx.t0, 2),
         "violations": len(ctx.violations),
     }
